@@ -26,7 +26,11 @@ func escapeTemplate(tmpl *Template, node parse.Node, name string) error {
 	c, _ := tmpl.esc.escapeTree(context{}, node, name, 0)
 	var err error
 	if c.err != nil {
-		err, c.err.Name = c.err, name
+		// The context (and with it the error value) may be memoized and shared with
+		// templates escaped earlier, whose callers still hold that error: name a copy.
+		e := *c.err
+		e.Name = name
+		err = &e
 	} else if c.state != stateText {
 		err = &Error{ErrEndContext, nil, name, 0, fmt.Sprintf("ends in a non-text context: %+v", c)}
 	}
